@@ -73,10 +73,66 @@ def validate(ctx, items):
     return fails
 
 
+def _spell(content, q):
+    """content (bytes) as a literal delimited by q: only the delimiter, the backslash (and `${` in a
+    backtick string) are escaped, so the three spellings of one content denote one value"""
+    out = bytearray([q])
+    i = 0
+    while i < len(content):
+        b = content[i]
+        if b == q or b == 92 or (q == 96 and b == 36 and content[i + 1:i + 2] == b"{"):
+            out.append(92)
+        out.append(b)
+        i += 1
+    out.append(q)
+    return bytes(out)
+
+
+CONTENTS = [b'say "hi" with a ` tick', b"'", b'"', b"`", b"a\"b'c`d", b"\\", b"x", b"${a}", b"caf\xc3\xa9", b'"`', b"it's `q` \"z\" \\n"]
+
+
+def multi_items(ctx, items, cap):
+    """Several literals in ONE compilation: the same value spelled with different delimiters (in every
+    order, and twice the same), and exported literals that denote the same value in different
+    spellings (escape vs raw character).  What is remembered about one literal must not leak into
+    the next."""
+    out = []
+
+    def prog(lits):
+        names = ["v", "w", "u"]
+        src = b"".join(b"let " + names[k].encode() + b" = " + l + b";" for k, l in enumerate(lits))
+        src += b"".join(b"print(" + names[k].encode() + b");" for k in range(len(lits)))
+        return src
+    n = 0
+    for c in CONTENTS:
+        sp = [_spell(c, q) for q in (34, 39, 96)]
+        combos = [(a, b) for a in sp for b in sp] + [(sp[0], sp[1], sp[2]), (sp[2], sp[0], sp[1]), (sp[1], sp[2], sp[0]), (sp[2], sp[1], sp[0])]
+        for lits in combos:
+            out.append(dict(id="multi%d" % n, kind="multi", src=list(prog(lits)), lit=list(lits[0]), mout=[], ref=[]))
+            n += 1
+    # exported literals grouped by their reference value
+    groups = {}
+    for it in items:
+        if it["kind"] in ("str", "raw") and it.get("ref"):
+            groups.setdefault(str(it["ref"]), []).append(it)
+    pairs = []
+    for g in groups.values():
+        spell = {bytes(i["lit"]): i for i in g}
+        ls = sorted(spell)[:4]
+        pairs += [(a, b) for a in ls for b in ls if a != b]
+    ctx.rng.shuffle(pairs)
+    for a, b in pairs[:cap]:
+        out.append(dict(id="multi%d" % n, kind="multi", src=list(prog((a, b))), lit=list(a), mout=[], ref=[]))
+        n += 1
+    ctx.cov["multi_literal_programs"] = len(out)
+    return out
+
+
 def run(ctx):
     quick = ctx.tier == "quick"
     exported, mf = c02.mc_export(ctx, "MC_C07", "MC_C07_quick.cfg" if quick else "MC_C07_thorough.cfg")
     items = [dict(id="m%d" % n, kind=e["kind"], src=e["src"], lit=e["lit"], mout=e["mout"], ref=e["ref"]) for n, e in enumerate(exported)]
+    items += multi_items(ctx, items, 400 if quick else 4000)
     ctx.cov["model_failures"] = len(mf)
     if mf:
         ctx.notes.append("design level: the printer/lexer MODEL changes the value of %d literals (candidates; the verdict comes from the real compiler and the engine)" % len(mf))
